@@ -55,6 +55,7 @@ type Contract struct {
 	Requires    []*Clause
 	Assumes     []*Clause // assumed at entry, not checked at call sites (listed as assumptions)
 	Ensures     []*Clause
+	Preserves   []*Clause // two-state facts (entry vs now): postcondition and invariant of every loop
 	Modifies    []*Expr
 	HasModifies bool
 	Decreases   *Clause // termination measure for recursion
@@ -109,7 +110,7 @@ type ContractSet struct {
 	nlines int
 }
 
-var clauseKW = map[string]bool{"func": true, "ginv": true, "decreases": true, "assumes": true, "requires": true, "ensures": true, "modifies": true, "panics": true,
+var clauseKW = map[string]bool{"func": true, "preserves": true, "ginv": true, "decreases": true, "assumes": true, "requires": true, "ensures": true, "modifies": true, "panics": true,
 	"loop": true, "spec": true, "axiom": true, "typed": true, "trusted": true, "pure": true, "effects": true,
 	"ufun": true, "smtaxiom": true, "rec": true, "signature": true, "maporder": true, "sortkey_injective": true, "guarded_global": true, "guarded_by": true, "deterministic": true, "recursion": true, "immutable": true, "pkg": true, "dominates": true, "tags": true}
 
@@ -320,12 +321,15 @@ func (cs *ContractSet) loadFile(path, repo string) error {
 				return fail(fmt.Errorf("clause %q outside a func block", kw))
 			}
 			switch kw {
-			case "requires", "ensures", "assumes":
+			case "requires", "ensures", "assumes", "preserves":
 				cl, err := parseClause(kw, rest, path, rc.line)
 				if err != nil {
 					return fail(err)
 				}
-				if kw == "assumes" {
+				if kw == "preserves" {
+					cur.Preserves = append(cur.Preserves, cl)
+					cur.Ensures = append(cur.Ensures, cl)
+				} else if kw == "assumes" {
 					cur.Assumes = append(cur.Assumes, cl)
 				} else if kw == "requires" {
 					cur.Requires = append(cur.Requires, cl)
